@@ -1129,6 +1129,128 @@ Definition l2obs_toks (o : l2obs) : list tok :=
   end.
 
 (* ------------------------------------------------------------------ *)
+(* The LNS side of internal/l2tp over a SEQUENCE of datagrams from one peer (Dispatch, dispatchSCCRQ, HandleSCCRQ, HandleSCCCN,
+   HandleICRQ, HandleICCN, HandleCDN, HandleStopCCN, handleSCCRP / handleICRP role checks; pkg/l2tp tunnel and session FSMs).
+   No transmit function is installed, so tunnels have no reliable control channel (sequence numbers are not consulted: that part
+   is C16's) and every control message that parses reaches its handler.
+   Tunnel states: 2 wait-ctl-conn, 3 established.  Session states: 1 wait-reply, 2 established. *)
+Record l2sess := mkLS { ls_local : N; ls_peer : N; ls_state : N }.
+Record l2tun := mkLT { lt_local : N; lt_peer : N; lt_state : N; lt_sess : list l2sess }.
+Record lns := mkLNS { ln_tuns : list l2tun; ln_next : N;           (* tunnel-id allocator: sequential *)
+                      ln_closed : list N }.                         (* peer tunnel ids of torn-down connections (linger) *)
+Definition lns0 := mkLNS [] 1 [].
+Fixpoint tun_find (id : N) (l : list l2tun) : option l2tun :=
+  match l with [] => None | t :: r => if lt_local t =? id then Some t else tun_find id r end.
+Definition tun_put (t : l2tun) (l : list l2tun) : list l2tun :=
+  map (fun x => if lt_local x =? lt_local t then t else x) l.
+Definition tun_del (id : N) (l : list l2tun) : list l2tun := filter (fun x => negb (lt_local x =? id)) l.
+Fixpoint sess_find (id : N) (l : list l2sess) : option l2sess :=
+  match l with [] => None | x :: r => if ls_local x =? id then Some x else sess_find id r end.
+(* smallest unused local session id, searched from 1 (bounded by the number of sessions + 1) *)
+Fixpoint sess_free (fuel : nat) (try : N) (l : list l2sess) : N :=
+  match fuel with
+  | O => try
+  | S f => match sess_find try l with None => try | Some _ => sess_free f (try + 1) l end
+  end.
+Fixpoint sess_ins (x : l2sess) (l : list l2sess) : list l2sess :=
+  match l with [] => [x] | y :: r => if ls_local x <? ls_local y then x :: l else y :: sess_ins x r end.
+Definition lns_step (auth : bytes) (st : lns) (b : bytes) : result lns :=
+  v3 <- is_l2tpv3 b;;
+  if v3 then Ok st else
+  match l2tp_parse b with
+  | Err _ => Ok st
+  | Panic => Panic
+  | OutOfFuel => OutOfFuel
+  | Ok (h, payload) =>
+    if negb (h_ver h =? 2) then Ok st else
+    if negb (h_ctrl h) then
+      (* data frame: reaches the session's PPP dispatcher once the session is established; no effect on this state *)
+      (match tun_find (h_tid h) (ln_tuns st) with
+       | Some t => match sess_find (h_sid h) (lt_sess t) with
+                   | Some x => if ls_state x =? 2 then
+                                 match l2tp_dispatch_ppp Repaired (mk_dcfg true false true) payload with
+                                 | Panic => Panic | OutOfFuel => OutOfFuel | _ => Ok st end
+                               else Ok st
+                   | None => Ok st end
+       | None => Ok st end)
+    else
+    match parse_avps payload with
+    | Err _ => Ok st
+    | Panic => Panic
+    | OutOfFuel => OutOfFuel
+    | Ok avps =>
+      mt <- decode_msg_type avps;;
+      if mt =? 1 then
+        match find_first 0 7 avps with
+        | None => Ok st
+        | Some ha =>
+          if negb (if list_eq_dec N.eq_dec (a_value ha) auth then true else false) then Ok st else
+          dup <- (match find_first 0 9 avps with
+                  | Some a => if 2 <=? lenN (a_value a) then (x <- decode_u16 a;; Ok (Some x)) else Ok None
+                  | None => Ok None end);;
+          let known := match dup with
+                       | Some p => existsb (fun t => lt_peer t =? p) (ln_tuns st) || existsb (N.eqb p) (ln_closed st)
+                       | None => false end in
+          if known then Ok st else
+          c <- sccrq_extract avps;;
+          match c with
+          | None => Ok st
+          | Some p => Ok (mkLNS (ln_tuns st ++ [mkLT (ln_next st) p 2 []]) (ln_next st + 1) (ln_closed st))
+          end
+        end
+      else
+      match tun_find (h_tid h) (ln_tuns st) with
+      | None => Ok st
+      | Some t =>
+        match avps with [] => Ok st | _ =>      (* ZLB *)
+        if mt =? 3 then                          (* SCCCN *)
+          (if lt_state t =? 2 then Ok (mkLNS (tun_put (mkLT (lt_local t) (lt_peer t) 3 (lt_sess t)) (ln_tuns st)) (ln_next st) (ln_closed st))
+           else Ok st)
+        else if mt =? 4 then                     (* StopCCN *)
+          Ok (mkLNS (tun_del (lt_local t) (ln_tuns st)) (ln_next st) (lt_peer t :: ln_closed st))
+        else if mt =? 10 then                    (* ICRQ *)
+          match find_first 0 14 avps with
+          | None => Ok st
+          | Some a =>
+            if lenN (a_value a) <? 2 then Ok st else
+            ps <- decode_u16 a;;
+            let id := sess_free (S (length (lt_sess t))) 1 (lt_sess t) in
+            Ok (mkLNS (tun_put (mkLT (lt_local t) (lt_peer t) (lt_state t) (sess_ins (mkLS id ps 1) (lt_sess t))) (ln_tuns st))
+                      (ln_next st) (ln_closed st))
+          end
+        else if mt =? 12 then                    (* ICCN *)
+          match sess_find (h_sid h) (lt_sess t) with
+          | Some x =>
+            if ls_state x =? 1 then
+              Ok (mkLNS (tun_put (mkLT (lt_local t) (lt_peer t) (lt_state t)
+                                       (map (fun y => if ls_local y =? ls_local x then mkLS (ls_local y) (ls_peer y) 2 else y) (lt_sess t)))
+                                 (ln_tuns st)) (ln_next st) (ln_closed st))
+            else Ok st
+          | None => Ok st
+          end
+        else if mt =? 14 then                    (* CDN *)
+          match sess_find (h_sid h) (lt_sess t) with
+          | Some x => Ok (mkLNS (tun_put (mkLT (lt_local t) (lt_peer t) (lt_state t)
+                                               (filter (fun y => negb (ls_local y =? ls_local x)) (lt_sess t)))
+                                         (ln_tuns st)) (ln_next st) (ln_closed st))
+          | None => Ok st
+          end
+        else Ok st                               (* SCCRP / ICRP (wrong role), Hello, unsupported types *)
+        end
+      end
+    end
+  end.
+Fixpoint lns_run (auth : bytes) (st : lns) (ds : list bytes) : result (list lns) :=
+  match ds with
+  | [] => Ok []
+  | d :: r => st' <- lns_step auth st d;; more <- lns_run auth st' r;; Ok (st' :: more)
+  end.
+Definition lns_toks (st : lns) : list tok :=
+  TN (N.of_nat (length (ln_tuns st))) ::
+  flat_map (fun t => TN (lt_local t) :: TN (lt_peer t) :: TN (lt_state t) :: TN (N.of_nat (length (lt_sess t))) ::
+                     flat_map (fun x => [TN (ls_local x); TN (ls_peer x); TN (ls_state x)]) (lt_sess t)) (ln_tuns st).
+
+(* ------------------------------------------------------------------ *)
 (* Admissible outcomes.  The property lets the code reject or ignore malformed input; where an implementation may
    legitimately be stricter than /repo HEAD the model marks exactly those inputs "may ignore" and nothing wider:
    a PPP-IPv6 (0x0057) frame whose Information field is not an IPv6 datagram (shorter than the 40-byte fixed header, or
@@ -1340,6 +1462,7 @@ Definition run (v : variant) (entry : N) (na : list N) (ba : list bytes) : resul
   if entry =? 70 then Ok (pool_burst (arg 0 na) (arg 1 na)) else
   if entry =? 72 then Ok (rad_history b (skipn 1 ba)) else
   if entry =? 73 then Ok [tbool (rad_parse_ok b); TN (if rad_parse_ok b then rad_declared b else 0)] else
+  if entry =? 76 then rmap (fun l => flat_map (fun st => TN 255 :: lns_toks st) l) (lns_run (barg 0 ba) lns0 (skipn 1 ba)) else
   if entry =? 75 then rmap l2obs_toks (l2tp_dispatch (barg 1 ba) b) else
   if entry =? 74 then Ok (padr_trace (arg 0 na, 0) b) else
   if entry =? 71 then Ok (pool_trace false (arg 0 na) pool0 (events_of b)) else
